@@ -29,6 +29,7 @@ EXPLANATION = (
     "is control-dependent on an output switch (SIM_OUTPUT.*, show/markdown flags, log levels). NOT decided: equality "
     "of trajectories, float reproducibility, behaviour of third-party libraries."
 )
+TECHNIQUE = "static: inventory of entropy/clock sources against a frozen table, taint of variable-width values into length measurements, set-iteration order analysis, CFG seeding discipline"
 ASSUMPTIONS = ["CPython: hash(int) is process-stable, hash(str)/hash(IPv4Address) depend on PYTHONHASHSEED",
                "dict and list iteration order is insertion order"]
 
